@@ -281,6 +281,8 @@ FORMAT_FAILURES = {
     "new Alignment.write(format unknown)": ("new Alignment", "x.fasta", {"format": "nosuchformat"}),
     "Table.write(writer raises)": ("Table", "x.tsv", {"writer": _failing_writer}),
     "atomic_write(body raises)": ("atomic_write_raises", "x.txt", {}),
+    "PhyloNode.write(json, unserialisable param)": ("PhyloNode_badparam", "x.json", {}),
+    "DictArray.write(format unknown)": ("DictArray", "x.tsv", {"format": "nosuchformat"}),
 }
 
 OLD = "previous content\nof the destination\n"
@@ -305,6 +307,13 @@ def do_write(key, objs, path, kw):
 
         with atomic_write("member.txt", in_zip=path, mode="wt") as f:
             f.write("line one\n")
+        return
+    if key == "PhyloNode_badparam":
+        from cogent3 import make_tree
+
+        t = make_tree("((a:1,b:2):3,(c:4,d:5):6);")
+        t.params["not_json"] = {1, 2}  # a set: newick / xml formatting accept it, json formatting raises
+        t.write(path)
         return
     if key == "TreeCollection":
         from cogent3 import make_tree
